@@ -100,7 +100,7 @@ def gen_soil(rng, profile, zmax=2.3):
     layers = None
     if rng.random() < _p(profile, "custom_soil_p", 0.2):
         typ = "custom"
-        nl = rng.choice([1, 1, 2, 2, 3])
+        nl = rng.choice(_p(profile, "n_layers_choices", [1, 1, 2, 2, 3]))
         dz = list(rng.choice([d for d in DZ_CHOICES if profile.get('any_dz') or dz_reachable(d) >= zmax + 0.1]))
         total = round(sum(dz), 2)
         layers = []
@@ -121,7 +121,7 @@ def gen_soil(rng, profile, zmax=2.3):
                 _, _, wp, fc, sat0, ksat0, _ = layers[-1]
                 sat = round(max(fc + 0.01, sat0 + rng.choice([-1, 1]) * rng.uniform(0.02, 0.12)), 3)
                 layers.append(["hyd", thick, wp, fc, sat, rng.choice([2, 15, 100, 500]), pen])
-            elif rng.random() < 0.5:
+            elif rng.random() < _p(profile, "hyd_layer_p", 0.5):
                 wp = round(rng.uniform(0.04, 0.32), 3)
                 fc = round(wp + rng.uniform(0.06, 0.22), 3)
                 sat = round(fc + rng.uniform(0.01, 0.2), 3)
